@@ -176,6 +176,7 @@ pub struct Driver {
     pub preface_skipped: bool,
     pub pending_block: Option<Vec<u8>>,
     pub poisoned: bool,
+    pub drop_after_accept: bool,
 }
 
 pub fn err_str(e: &h2::Error) -> String {
@@ -283,6 +284,7 @@ impl Driver {
             preface_skipped: false,
             pending_block: None,
             poisoned: false,
+            drop_after_accept: false,
         };
         // record the handshake output as step 0
         let hs = json!({"op":"handshake"});
@@ -465,6 +467,11 @@ impl Driver {
                 json!({"panic": msg})
             }
         };
+        if self.drop_after_accept {
+            // an accept loop ends on None / Err and drops the connection
+            self.drop_after_accept = false;
+            self.drop_conn_object();
+        }
         self.note_result(op, &res);
         self.finish_step(op.clone(), res.clone());
         res
@@ -732,11 +739,13 @@ impl Driver {
                         Poll::Pending => json!("Pending"),
                         Poll::Ready(None) => {
                             self.conn_done = Some("accept:None".into());
+                            self.drop_after_accept = true;
                             json!("None")
                         }
                         Poll::Ready(Some(Err(e))) => {
                             let s = err_str(&e);
                             self.conn_done = Some(s.clone());
+                            self.drop_after_accept = true;
                             json!(s)
                         }
                         Poll::Ready(Some(Ok((req, respond)))) => {
@@ -1124,12 +1133,26 @@ impl Driver {
             Poll::Pending => json!("Pending"),
             Poll::Ready(Ok(())) => {
                 self.conn_done = Some("Ok".into());
+                self.drop_conn_object();
                 json!("Ready(Ok)")
             }
             Poll::Ready(Err(e)) => {
                 let s = err_str(&e);
                 self.conn_done = Some(s.clone());
+                self.drop_conn_object();
                 json!(s)
+            }
+        }
+    }
+
+    /// A completed connection future is dropped by its executor; do the same so that the handles see it.
+    fn drop_conn_object(&mut self) {
+        match &mut self.ep {
+            Endpoint::Client { conn, .. } => {
+                conn.take();
+            }
+            Endpoint::Server { conn } => {
+                conn.take();
             }
         }
     }
